@@ -176,6 +176,29 @@ def main(argv=None):
         for w in v.witness[:16]:
             print("    %s" % w)
 
+    # ---- thorough tier: self-validation of this property's rules on scratch copies of the CURRENT tree
+    selftest = None
+    if args.tier == "thorough" and os.path.abspath(args.repo) == "/repo" and not args.rule and not args.no_evidence:
+        import subprocess
+        import tempfile
+        tf = tempfile.NamedTemporaryFile(suffix=".json", delete=False)
+        tf.close()
+        jobs = str(max(2, min(8, (os.cpu_count() or 4) // 2)))
+        subprocess.run([os.path.join(VERIF, "bin", "selftest"), "--prop", prop, "--with-seeded", "--no-setup", "--jobs", jobs, "--json", tf.name], stdout=subprocess.DEVNULL, stderr=subprocess.DEVNULL)
+        try:
+            with open(tf.name) as f:
+                res = json.load(f)
+        except (OSError, ValueError):
+            res = []
+        os.unlink(tf.name)
+        fired = [r["name"] for r in res if r["outcome"] == "fired"]
+        missed = [r["name"] for r in res if r["outcome"] == "MISSED"]
+        skipped = [r["name"] for r in res if r["outcome"].startswith("skipped")]
+        failed = [r["name"] for r in res if r["outcome"] == "build-failed"]
+        selftest = {"mutants_fired": len(fired), "mutants_applicable": len(fired) + len(missed), "skipped_context_drift": skipped, "missed": missed, "did_not_build": failed,
+                    "what": "each mutant / independently seeded change is applied to a scratch copy of the current tree, facts are re-extracted and the check must report it; a miss means the rule lost its teeth (reported here, it does not make the unchanged tree a violation)"}
+        print("selftest: fired=%d applicable=%d skipped=%d missed=%s" % (len(fired), len(fired) + len(missed), len(skipped), missed))
+
     wall = time.time() - t0
     discharged = sum(1 for o in obligations if o["verdict"] != "VIOLATED")
     if not args.no_evidence:
@@ -208,6 +231,7 @@ def main(argv=None):
                 "rules_run": [r.id for r in rules],
                 "known_findings_matched": [{"id": kf["id"], "key": v.key} for kf, v in matched_known],
                 "notes": notes[:40],
+                "selftest": selftest,
             },
             "assumptions": ASSUMPTIONS,
             "wall_s": round(wall, 3),
